@@ -948,6 +948,9 @@ class Interp(object):
         if name == '_node':
             # G._node = deepcopy(self._node): whole node dict replaced
             if v.kind == 'nodedict_copy':
+                if g.valid:
+                    # replacing the node dict keeps Inv only if the key set is the same (I1: node <=> adjacency row)
+                    self.ctx.oblige('typestate.node_dict_replaced_with_the_same_key_set', g['NodeIn'] == v.src['NodeIn'], kind='pre')
                 g['NodeIn'] = v.src['NodeIn']
                 g['NAttr'] = v.attrs
                 return
